@@ -102,6 +102,7 @@ fn main() {
         "mut" => { let v = unhex(&args[2]); match bounded::mut_replay(&v) { Some(d) => { println!("DISAGREE {}", d); std::process::exit(1); } None => println!("AGREE") } }
         "matches" => { let v = unhex(&args[2]); match bounded::matches_replay(&v) { Some(d) => { println!("DISAGREE {}", d); std::process::exit(1); } None => println!("AGREE") } }
         "serde" => { let v = unhex(&args[2]); match bounded::serde_check(&v) { Some(d) => { println!("DISAGREE {}", d); std::process::exit(1); } None => println!("AGREE") } }
+        "likely" => { let v = unhex(&args[2]); match bounded::likely_check(&String::from_utf8_lossy(&v)) { Some(d) => { println!("DISAGREE {}", d); std::process::exit(1); } None => println!("AGREE") } }
         "fromparts" => { let v = unhex(&args[2]); match bounded::fromparts_replay(&v) { Some(d) => { println!("DISAGREE {}", d); std::process::exit(1); } None => println!("AGREE") } }
         "xleaf" => {
             // a leaf parser of the extension code, reached through the public API that calls it (panics are caught)
